@@ -696,6 +696,17 @@ def st_map_to_g1(L, ex, a, I):
     key = z3.Concat(tobv(ut, 384), tobv(vt, 384))
     st = G(ex)
     g = st['h2c'].get(key)
+    if g is None and getattr(ex, 'galg_h2c_fork', False):
+        # hash-to-curve inputs that are arbitrary bytes (a caller-supplied hasher): the path forks on whether this
+        # input equals an earlier one; equal inputs share the point (distinct generators are formal indeterminates,
+        # which would otherwise never coincide)
+        for lst in list(st['h2c'].d.values()):
+            for (k2, g2) in lst:
+                if g is None and ex.decide(key == k2):
+                    g = g2
+        if g is not None:
+            ge_write(ex, out, elem(ex, 'g1', Poly.gen(g), ZERO, False))
+            return
     if g is None:
         g = new_gen(ex, 'h')
         ex.add(mvar(ex, (g,)) != 0)      # H(m) is not the identity (probability 1/r event excluded)
